@@ -91,6 +91,19 @@ def reuse_programs():
                    'Signal q = (x > 2) || (y > 2) || (x == 0);\n')
     yield "dag11", ('Signal a = ("signal-A", 3);\nSignal b = ("signal-A", 7);\nSignal c = (5 < a) : b;\nSignal d = (a >= 2) : b;\n')
     yield "dag10", ('Signal x = ("signal-A", 6);\nSignal r = x * x * x;\nSignal q = -x + x;\n')
+    # compound condition whose copied value shares a condition operand's signal type
+    yield "dag12", ('Signal x = ("signal-A", 6);\nSignal y = ("signal-B", 4);\nSignal z = ("signal-A", 9);\n'
+                    'Signal r = (x > 3 && y < 9) : z;\nSignal q = (x < 2 || y >= 4) : z;\n')
+    # projection of a conditional value
+    yield "dag13", ('Signal a = ("signal-A", 7);\nSignal b = ("signal-B", 4);\nSignal r = ((a > 5) : b) | "signal-X";\n'
+                    'Signal q = ((a > 5) : 3) | "signal-Y";\n')
+    # inputs whose initial value happens to be 0 or 1 are still arbitrary int32 inputs
+    yield "dag14", ('Signal a = ("signal-A", 1);\nSignal b = ("signal-B", 0);\nSignal r = a && b;\nSignal q = a || b;\n'
+                    'Signal p = (a && (b > 2)) + (!a);\n')
+    yield "dag14u", ('Signal a = 1;\nSignal b = 1;\nSignal r = a && b;\nSignal q = a || b;\n')
+    # a wire-merged operand next to one of its own members
+    yield "dag15", ('Signal a = ("signal-A", 4);\nSignal b = ("signal-A", 5);\nSignal r = ((a + b) + a) * 3;\n')
+    yield "dag15b", ('Signal a = ("signal-A", 4);\nSignal b = ("signal-A", 5);\nSignal r = (a + b) - a;\nSignal q = (a + b) * b;\n')
 
 
 PAIRS_QUICK = [("x", "y"), ("x", "z"), ("x", "k3"), ("k3", "x"), ("w", "x"), ("x", "km2"), ("ip", "x")]
